@@ -11,23 +11,11 @@ KF = {
 }
 
 
-def run(pid, tier, work, assumptions):
-    t0 = time.time()
-    thorough = tier == "thorough"
-    if "--replay" in sys.argv:
-        path = os.path.abspath(sys.argv[sys.argv.index("--replay") + 1])
-        res = storelib.validate(work, path, "replay", module="PersistTrace", cfg="PersistTrace.cfg")
-        bad = [x for x in res["viol"] if x[0] == pid]
-        for x in bad:
-            print("VIOLATION property=%s replay=%s\n  detail: %s at line %s" % (pid, path, x[3], x[2]))
-        return 1 if bad else 0
-    v = vlib.Verdict(pid, work)
-    mc = storelib.tlc_mc(work, "PersistMC.cfg", module="PersistMC", tag="pmc", timeout=2400)
-    out = storelib.run_driver(work, "TestVerif_Persist", "persist",
-                              env={"VERIF_N": 150 if thorough else 14, "VERIF_BYTES": 400 if thorough else 60}, timeout=2400)
+def trace_part(work, v, pid, n, nbytes, others):
+    """Run the persistence driver, validate with PersistTrace and report the violations of property pid."""
+    out = storelib.run_driver(work, "TestVerif_Persist", "persist", env={"VERIF_N": n, "VERIF_BYTES": nbytes}, timeout=2400)
     tf = os.path.join(out, "persist.ndjson")
     res = storelib.validate(work, tf, "persist", module="PersistTrace", cfg="PersistTrace.cfg", timeout=3000)
-    others = {}
     # a violation's replay file: the "saved" line of its run plus the offending line
     lines = open(tf).read().splitlines()
     seen = set()
@@ -45,6 +33,22 @@ def run(pid, tier, work, assumptions):
                     fh.write(ln + "\n")
             fh.write(lines[line - 1] + "\n")
         v.report("%s: %s in run %s at line %s" % (pid, kind, tid, line), rp, sig=KF.get(kind))
+    return res, lines
+
+
+def run(pid, tier, work, assumptions):
+    t0 = time.time()
+    thorough = tier == "thorough"
+    if "--replay" in sys.argv:
+        path = os.path.abspath(sys.argv[sys.argv.index("--replay") + 1])
+        res = storelib.validate(work, path, "replay", module="PersistTrace", cfg="PersistTrace.cfg")
+        bad = [x for x in res["viol"] if x[0] == pid]
+        for x in bad:
+            print("VIOLATION property=%s replay=%s\n  detail: %s at line %s" % (pid, path, x[3], x[2]))
+        return 1 if bad else 0
+    v = vlib.Verdict(pid, work)
+    mc = storelib.tlc_mc(work, "PersistMC.cfg", module="PersistMC", tag="pmc", timeout=2400)
+    res, lines = trace_part(work, v, pid, 150 if thorough else 14, 400 if thorough else 60, others := {})
     cov = {"states": mc.distinct, "transitions": mc.generated, "traces_validated_against_impl": res["traces"],
            "evaluations": res["loads"] + res["byteloads"], "distinct_nontrivial": res["loads"] + res["byteloads"],
            "rule": "one evaluation = one Recover of a saved stream (clean, damaged at block level, or damaged at byte level) into a fresh cache of a chosen size after a chosen elapsed time; saved states come from seeded fills with mixed costs, TTLs on several wheel levels, promotions and adaptive window resizing",
